@@ -442,3 +442,19 @@ def sym_paths(fi, limit=64):
     except Unsupported:
         return None
     return out
+
+
+def leaf_cut(cfg, classify):
+    """{test node id: label} for the leaf tests that classify(text) maps to 'T' or 'F' (the out-edge to remove); a negated leaf
+    (`not x`) is owned by the CFG as its operand with the edges exchanged, so texts are those of the un-negated leaves"""
+    cut = {}
+    for n in cfg.nodes:
+        if n.kind == "test" and n.ast is not None:
+            lab = classify(norm(n.ast))
+            if lab in ("T", "F"):
+                cut[n.id] = lab
+    return cut
+
+
+def reach_without(cfg, src, cut):
+    return cfg.reachable(src, edge_ok=lambda a, b_, label: not (a.id in cut and label == cut[a.id]))
